@@ -281,3 +281,68 @@ def c10(prop, tier):
                       "all request lists of length <= 4 over 6 digest classes, batch size 2, 2 backend workers, all interleavings; liveness: the request terminates",
                       CASE_ASSUME + ["the worker interleaving of the real code is not controlled in the replay; it is explored exhaustively only in the model"],
                       t0=t0, extra_models=extra)
+
+
+def multi_check(prop, tier, models, drivers, assumptions, checker_cmd):
+    """models: list of (name, module, cfg, desc, table_key or None) - TLC runs; a table_key makes the run
+    write a case table that drivers can refer to as {table_key}.  drivers: list of (name, args)."""
+    t0 = time.time()
+    cov = new_cov()
+    v = Verdict(prop)
+    tables = {}
+    for name, module, cfg, desc, key in models:
+        if key:
+            out = os.path.join(scratch(), f"{key}-cases.json")
+            r = run_tlc(module, cfg, env={"VERIF_CASES_OUT": out}, workers=8, timeout=1800)
+            if r.ok and not os.path.exists(out):
+                raise Machinery(f"{module}/{cfg} wrote no case table")
+            tables[key] = out
+        else:
+            r = run_tlc(module, cfg, workers=8, timeout=1800)
+        if not r.ok:
+            raise Machinery(f"model check {name} ({module}/{cfg}) did not pass: {r.invariant or r.error}\n{r.output[-3000:]}")
+        log(f"[model] {name}: {r.generated} states generated, {r.distinct} distinct, depth {r.depth}, {r.wall_s:.1f}s")
+        add_model(cov, name, r, desc)
+    rules = []
+    for name, args in drivers:
+        a = [x.replace("{tier}", tier).replace("{seed}", str(seed())) for x in args]
+        for k, p in tables.items():
+            a = [x.replace("{" + k + "}", p) for x in a]
+        res = run_vh(a, timeout=7200)
+        collect_driver(v, res, {"driver_args": a, "kind": "driver"})
+        cov["evaluations"] += res["cases"]
+        cov["distinct_nontrivial"] += res["nontrivial"]
+        rules.append(f"{name}: {res['rule']}")
+        for s in res.get("samples", [])[:2]:
+            cov["samples"].append({"driver": name, "case": s})
+        cov["drivers"].append({"driver": name, "executions": res["cases"], "nontrivial": res["nontrivial"], "drive_s": round(res["_wall_s"], 1),
+                               "extra": res.get("extra")})
+        if res["cases"] == 0:
+            raise Machinery(f"{prop}: driver {name} executed nothing")
+        log(f"[conf] {name}: {res['cases']} executions ({res['nontrivial']} non-trivial), {len(res.get('violations', []))} violations, {res['_wall_s']:.1f}s")
+    cov["rule"] = " | ".join(rules)
+    cov["checker_cmd"] = checker_cmd
+    if cov["distinct_nontrivial"] < 2:
+        raise Machinery(f"{prop}: vacuous run")
+    rc = v.finish()
+    write_evidence(prop, tier, "model_checking", cov, time.time() - t0, len(v.violations), assumptions)
+    return rc
+
+
+@check("C06")
+def c06(prop, tier):
+    models = [
+        ("ActionCache/backend", "ActionCache.tla", "ActionCache_B.cfg", "all ActionResult shapes of <= 3 references over 7 categories x 6 blob states, backend configured: Mechanism = Policy", "acB"),
+        ("ActionCache/nobackend", "ActionCache.tla", "ActionCache_N.cfg", "same, no backend", "acN"),
+        ("FindMissing/failfast+backend", "FindMissing.tla", "FindMissing_BF.cfg", "fail-fast dependency check: all lists <= 4, batch 2, 2 workers, all interleavings", None),
+        ("FindMissing/failfast", "FindMissing.tla", "FindMissing_NF.cfg", "fail-fast dependency check without backend", None),
+    ]
+    drivers = [
+        ("acdeps+backend", ["acdeps", "-backend", "-cases", "{acB}", "-tier", "{tier}", "-seed", "{seed}"]),
+        ("acdeps", ["acdeps", "-cases", "{acN}", "-tier", "{tier}", "-seed", "{seed}"]),
+        ("acrace", ["acrace", "-iters", "150" if tier == "quick" else "1500", "-seed", "{seed}"]),
+    ]
+    return multi_check(prop, tier, models, drivers,
+                       CASE_ASSUME + ["blob states are produced by uploads / by a fake backend, the 'absent' state by never uploading; eviction by earlier traffic is covered through C05's traces",
+                                      "the fail-fast race schedule found by TLC is replayed through the verif gate findmissing.wait"],
+                       "tlc ActionCache.tla + FindMissing.tla (fail-fast) + vh acdeps / acrace")
